@@ -331,6 +331,34 @@ def run_cfg(chk, facts, cfg):
     except Unsupported as e:
         chk.ob('%s:ci_indices%s' % (PID, sfx), 'E3', 'ci_indices', None, 'undecided: %s' % e, where)
 
+    # ------------------------------------------------------------------ E'. the running Stats: Default is the empty sample, + / += add the
+    # populations - a Stats built by accumulating partial counts is Stats::new(total), hence answers like ci_indices(total)
+    qp = 'quantile::Stats'
+    N1, N2 = T.sym('n1'), T.sym('n2')
+    try:
+        zero_state = qstate(T.mk_int(0))
+        dfn = facts.trait_method('core::default::Default', qp, 'default')
+        if chk.anchor('Default for quantile::Stats' + sfx, dfn):
+            sx = Summarizer(facts, assume_no_overflow=True)
+            ps = sx.summarize(dfn['id'])
+            chk.saw(facts, dfn, paths=len(ps))
+            good = len(ps) == 1 and ps[0].is_ret() and ps[0].ret == zero_state
+            chk.ob('%s:running:default%s' % (PID, sfx), 'E3', 'the default running Stats is the empty sample (population 0)', good, '' if good else 'default is %s' % [T.show(p.ret)[:80] for p in ps if p.ret], facts.loc(dfn['id']))
+        for tr, meth, mode in (('core::ops::Add', 'add', 'value'), ('core::ops::AddAssign', 'add_assign', 'effect')):
+            fn = facts.trait_method(tr, qp, meth, trait_args=lambda imp: [t.get('adt') for t in imp.get('trait_args', [])] in ([qp], []))
+            if not chk.anchor('%s for quantile::Stats%s' % (tr.split('::')[-1], sfx), fn):
+                continue
+            sx = Summarizer(facts, assume_no_overflow=True)
+            ps = sx.summarize(fn['id'], args=[qstate(N1) if mode == 'value' else by_ref(qstate(N1)), qstate(N2)], arg_names=['a', 'b'])
+            chk.saw(facts, fn, paths=len(ps))
+            want = qstate(T.op('add', N1, N2))
+            outs = [(p.ret if mode == 'value' else p.effects.get('a')) for p in ps if p.is_ret()]
+            good = len(outs) == len(ps) >= 1 and all(o == want for o in outs)
+            chk.ob('%s:running:%s%s' % (PID, meth, sfx), 'E3', 'merging two running Stats adds their populations (whatever the operands)', good,
+                   '' if good else 'merge gives %s' % [T.show(o)[:80] if o else None for o in outs][:3], facts.loc(fn['id']))
+    except Unsupported as e:
+        chk.ob('%s:running%s' % (PID, sfx), 'E3', 'running Stats', None, 'undecided: %s' % e, where)
+
     # ------------------------------------------------------------------ C. ci_sorted_unchecked
     where = facts.loc(cso['id'])
     ILO, IHI, IERR = T.sym('ilo'), T.sym('ihi'), T.sym('ierr')
